@@ -93,10 +93,115 @@ pub fn check_c13(defs: &Vec<Vec<KeyCode>>, key: KeyCode, out: KeyCode) -> Result
   Ok(())
 }
 
+
+// ---------------------------------------------------------------------------------------------------------------------------------
+// C13, whole-program oracle: a random layout program (alias definitions, single / row / repeat-only mappings with alias and plain
+// modifiers) is written as JSON, loaded through the real path, and compared with its expansion WRITTEN OUT BY HAND here, independently
+// of the converter: one mapping per non-space letter and per combination of alias definitions (little-endian counting order), the Shift a
+// US-QWERTY keyboard needs (right Shift if the trigger contains right Shift), output-side aliases replaced by the trigger-side choice,
+// source order kept, repeat-only entries applied by trigger set afterwards.
+#[derive(Clone, Debug)] pub enum PMod { Alias(usize), Key(KeyCode) }
+#[derive(Clone, Debug)] pub enum PItem {
+  AliasDef { name: usize, keys: Vec<KeyCode> },
+  Single { mods: Vec<PMod>, key: KeyCode, to_mods: Vec<PMod>, to_key: KeyCode, disabled: bool },
+  Row { mods: Vec<PMod>, row: usize, to_mods: Vec<PMod>, letters: String, disabled: bool },
+  RepeatOnly { mods: Vec<PMod>, key: KeyCode, disabled: bool },
+}
+const ANAMES: [&str; 3] = ["@p", "@q", "@r"];
+const ROWNAMES: [&str; 5] = ["`", "1", "Q", "A", "Z"];
+fn qrows() -> Vec<(&'static str, &'static str, Vec<KeyCode>)> { use KeyCode::*; vec![
+  ("`1234567890-=", "~!@#$%^&*()_+", vec![GRAVE, K1, K2, K3, K4, K5, K6, K7, K8, K9, K0, MINUS, EQUAL]),
+  ("qwertyuiop[]\\", "QWERTYUIOP{}|", vec![Q, W, E, R, T, Y, U, I, O, P, LEFTBRACE, RIGHTBRACE, BACKSLASH]),
+  ("asdfghjkl;'", "ASDFGHJKL:\"", vec![A, S, D, F, G, H, J, K, L, SEMICOLON, APOSTROPHE]),
+  ("zxcvbnm,./", "ZXCVBNM<>?", vec![Z, X, C, V, B, N, M, COMMA, DOT, SLASH]) ] }
+fn qchar(c: char) -> Option<(bool, KeyCode)> {
+  for (plain, shifted, keys) in qrows() { if let Some(i) = plain.chars().position(|x| x == c) { return Some((false, keys[i])); } if let Some(i) = shifted.chars().position(|x| x == c) { return Some((true, keys[i])); } }
+  None
+}
+fn qrow(i: usize) -> Vec<KeyCode> { let r = qrows(); match i { 0 => r[0].2.clone(), 1 => r[0].2[1..].to_vec(), 2 => r[1].2[..12].to_vec(), 3 => r[2].2.clone(), _ => r[3].2.clone() } }
+fn is_mod_key(k: KeyCode) -> bool { use KeyCode::*; matches!(k, LEFTSHIFT | RIGHTSHIFT | LEFTALT | RIGHTALT | LEFTCTRL | RIGHTCTRL | LEFTMETA | RIGHTMETA) }
+fn jmods(ms: &Vec<PMod>) -> Vec<String> { ms.iter().map(|m| match m { PMod::Alias(a) => format!("\"{}\"", ANAMES[*a]), PMod::Key(k) => format!("\"{:?}\"", k) }).collect() }
+pub fn program_json(p: &Vec<PItem>) -> String {
+  let mut ms: Vec<String> = Vec::new();
+  for it in p { match it {
+    PItem::AliasDef { name, keys } => ms.push(format!("{{\"from\":[{}],\"to\":\"{}\"}}", keys.iter().map(|k| format!("\"{:?}\"", k)).collect::<Vec<_>>().join(","), ANAMES[*name])),
+    PItem::Single { mods, key, to_mods, to_key, disabled } => { let mut f = jmods(mods); f.push(format!("\"{:?}\"", key)); let mut t = jmods(to_mods); t.push(format!("\"{:?}\"", to_key));
+      ms.push(format!("{{\"from\":[{}],\"to\":[{}]{}}}", f.join(","), t.join(","), if *disabled { ",\"repeat\":\"Disabled\"" } else { "" })); },
+    PItem::Row { mods, row, to_mods, letters, disabled } => { let mut f = jmods(mods); f.push(format!("{{\"row\":\"{}\"}}", ROWNAMES[*row])); let mut t = jmods(to_mods); t.push(format!("{{\"letters\":{}}}", serde_json::to_string(letters).unwrap()));
+      ms.push(format!("{{\"from\":[{}],\"to\":[{}]{}}}", f.join(","), t.join(","), if *disabled { ",\"repeat\":\"Disabled\"" } else { "" })); },
+    PItem::RepeatOnly { mods, key, disabled } => { let mut f = jmods(mods); f.push(format!("\"{:?}\"", key)); ms.push(format!("{{\"from\":[{}],\"repeat\":\"{}\"}}", f.join(","), if *disabled { "Disabled" } else { "Normal" })); },
+  } }
+  format!("{{\"mappings\":[{}]}}", ms.join(","))
+}
+/// the expansion written out by hand; None when the program has no meaning (an undefined alias, an output alias that is not on the trigger side, a letter without key, a row that is too short)
+pub fn expand_by_hand(p: &Vec<PItem>) -> Option<Vec<Mapping>> {
+  let mut table: Vec<Vec<Vec<KeyCode>>> = vec![Vec::new(); ANAMES.len()];
+  for it in p { if let PItem::AliasDef { name, keys } = it { table[*name].push(keys.clone()); } }
+  // all combinations for the alias modifiers of a trigger, little-endian counting order; each combination gives the definition number per alias OCCURRENCE
+  let combos = |mods: &Vec<PMod>| -> Option<Vec<Vec<usize>>> {
+    let occ: Vec<usize> = mods.iter().filter_map(|m| if let PMod::Alias(a) = m { Some(*a) } else { None }).collect();
+    for a in &occ { if table[*a].is_empty() { return None; } }
+    let total: usize = occ.iter().map(|a| table[*a].len()).product();
+    let mut out = Vec::new();
+    for n in 0..total { let mut rest = n; let mut c = Vec::new(); for a in &occ { c.push(rest % table[*a].len()); rest /= table[*a].len(); } out.push(c); }
+    Some(out)
+  };
+  let trig = |mods: &Vec<PMod>, c: &Vec<usize>| -> Vec<KeyCode> { let mut j = 0; let mut v = Vec::new(); for m in mods { match m { PMod::Key(k) => v.push(*k), PMod::Alias(a) => { v.extend(table[*a][c[j]].iter()); j += 1; } } } v };
+  // output side: the keys chosen for that alias on the trigger side (its last occurrence there)
+  let outm = |mods: &Vec<PMod>, tmods: &Vec<PMod>, c: &Vec<usize>| -> Option<Vec<KeyCode>> { let mut v = Vec::new(); for m in tmods { match m { PMod::Key(k) => v.push(*k), PMod::Alias(a) => {
+      let mut j = 0; let mut found = None; for tm in mods { if let PMod::Alias(b) = tm { if b == a { found = Some(j); } j += 1; } } v.extend(table[*a][c[found?]].iter()); } } } Some(v) };
+  let mut res: Vec<Mapping> = Vec::new();
+  for it in p { match it {
+    PItem::AliasDef { keys, .. } => { if !(keys.len() == 1 && is_mod_key(keys[0])) { res.push(Mapping { from: keys.clone(), to: vec![], repeat: Repeat::Normal, absorbing: vec![] }); } },
+    PItem::Single { mods, key, to_mods, to_key, disabled } => { for c in combos(mods)? { let mut f = trig(mods, &c); f.push(*key); let mut t = outm(mods, to_mods, &c)?; t.push(*to_key);
+      res.push(Mapping { from: f, to: t, repeat: if *disabled { Repeat::Disabled } else { Repeat::Normal }, absorbing: vec![] }); } },
+    PItem::Row { mods, row, to_mods, letters, disabled } => { let prow = qrow(*row); for c in combos(mods)? { let fm = trig(mods, &c); let tm = outm(mods, to_mods, &c)?; let rs = fm.contains(&KeyCode::RIGHTSHIFT);
+      for (i, ch) in letters.chars().enumerate() { if i >= prow.len() { return None; } if ch == ' ' { continue; } let (sh, k) = qchar(ch)?;
+        let mut f = fm.clone(); f.push(prow[i]); let mut t = tm.clone(); if sh { t.push(if rs { KeyCode::RIGHTSHIFT } else { KeyCode::LEFTSHIFT }); } t.push(k);
+        res.push(Mapping { from: f, to: t, repeat: if *disabled { Repeat::Disabled } else { Repeat::Normal }, absorbing: vec![] }); } } },
+    PItem::RepeatOnly { .. } => {},
+  } }
+  let n_main = res.len();
+  let tset = |f: &Vec<KeyCode>| -> (Vec<KeyCode>, KeyCode) { let mut a: Vec<KeyCode> = f[..f.len() - 1].to_vec(); a.sort(); (a, *f.last().unwrap()) };
+  for it in p { if let PItem::RepeatOnly { mods, key, disabled } = it { for c in combos(mods)? { let mut f = trig(mods, &c); f.push(*key); let rp = if *disabled { Repeat::Disabled } else { Repeat::Normal };
+    let mut hit = false; for m in res[..n_main].iter_mut() { if !m.from.is_empty() && tset(&m.from) == tset(&f) { m.repeat = rp.clone(); hit = true; } }
+    if !hit { res.push(Mapping { from: f.clone(), to: f, repeat: rp, absorbing: vec![] }); } } } }
+  Some(res)
+}
+pub fn gen_program(r: &mut Rng) -> Vec<PItem> {
+  use KeyCode::*;
+  let modpool = [LEFTSHIFT, RIGHTSHIFT, LEFTCTRL, RIGHTCTRL, LEFTALT, RIGHTALT, LEFTMETA, RIGHTMETA, CAPSLOCK, TAB];
+  let keypool = [A, B, C, D, E, F, G, H, ESC, SPACE];
+  let mut p = Vec::new(); let mut used: Vec<KeyCode> = Vec::new();
+  let nal = r.below(4);
+  for a in 0..nal.min(3) { for _ in 0..(1 + r.below(3)) { let mut ks = Vec::new(); for _ in 0..(1 + (r.below(4) == 0) as usize) { let k = modpool[r.below(modpool.len())]; if !used.contains(&k) { used.push(k); ks.push(k); } } if !ks.is_empty() { p.push(PItem::AliasDef { name: a, keys: ks }); } } }
+  let gen_mods = |r: &mut Rng, n_alias: usize| -> Vec<PMod> { let mut v: Vec<PMod> = Vec::new(); let mut seen: Vec<usize> = Vec::new(); for _ in 0..r.below(4) { if n_alias > 0 && r.below(2) == 0 { let a = r.below(n_alias); if !seen.contains(&a) || r.below(6) == 0 { seen.push(a); v.push(PMod::Alias(a)); } } else { let k = [LEFTSHIFT, RIGHTSHIFT, LEFTCTRL, CAPSLOCK, TAB][r.below(5)]; if !v.iter().any(|m| matches!(m, PMod::Key(x) if *x == k)) { v.push(PMod::Key(k)); } } } v };
+  for _ in 0..(1 + r.below(4)) {
+    let mods = gen_mods(r, nal.min(3));
+    let to_mods: Vec<PMod> = mods.iter().filter(|_| r.below(2) == 0).cloned().collect();
+    match r.below(4) {
+      0 | 1 => p.push(PItem::Single { mods, key: keypool[r.below(keypool.len())], to_mods, to_key: keypool[r.below(keypool.len())], disabled: r.below(3) == 0 }),
+      2 => { let letters = ["abc", "a b", "aB", "Hello", "~!", "q", " x", "[]", "xyz?", "1+2"][r.below(10)].to_string(); p.push(PItem::Row { mods, row: r.below(5), to_mods, letters, disabled: r.below(3) == 0 }) },
+      _ => p.push(PItem::RepeatOnly { mods, key: keypool[r.below(keypool.len())], disabled: r.below(2) == 0 }),
+    }
+  }
+  p
+}
+/// Ok(true): compared and equal; Ok(false): the loader rejected the program (nothing to compare); Err: the accepted layout differs from the hand-written expansion
+pub fn check_c13_program(p: &Vec<PItem>) -> Result<bool, String> {
+  let text = program_json(p);
+  let got = match load(&text) { Ok(l) => l, Err(_) => return Ok(false) };
+  let want = match expand_by_hand(p) { Some(w) => w, None => return Err(format!("the loader accepted a program that has no hand-written expansion (undefined alias / output alias not on the trigger side / letter without key / row too short): {}", text)) };
+  if got.mappings.len() != want.len() { return Err(format!("{} mappings, the hand-written expansion has {} ({})", got.mappings.len(), want.len(), text)); }
+  for (i, w) in want.iter().enumerate() { let g = &got.mappings[i]; if g.from != w.from || g.to != w.to || g.repeat != w.repeat {
+    return Err(format!("mapping {}: got {:?} -> {:?} ({:?}), the hand-written expansion has {:?} -> {:?} ({:?})", i, g.from, g.to, g.repeat, w.from, w.to, w.repeat)); } }
+  Ok(true)
+}
+
 pub fn explore(prop: &str, secs: f64, seed: u64) -> i32 {
   let t0 = std::time::Instant::now();
   let mut r = Rng(seed.wrapping_mul(0x9E3779B97F4A7C15) | 1);
-  let mut n: u64 = 0;
+  let mut n: u64 = 0; let mut compared: u64 = 0;
   std::panic::set_hook(Box::new(|_| {}));
   let mods = [KeyCode::LEFTSHIFT, KeyCode::RIGHTSHIFT, KeyCode::LEFTCTRL, KeyCode::RIGHTCTRL, KeyCode::LEFTALT, KeyCode::RIGHTALT, KeyCode::LEFTMETA, KeyCode::RIGHTMETA];
   while t0.elapsed().as_secs_f64() < secs {
@@ -108,6 +213,11 @@ pub fn explore(prop: &str, secs: f64, seed: u64) -> i32 {
           println!("WITNESS {{\"property\":\"C14\",\"json\":{:?},\"event_seed\":{},\"what\":{:?},\"cases_tried\":{}}}", text, s, m, n);
           return 1;
         }
+      } else if prop == "C13" && n % 2 == 0 {
+        let p = gen_program(&mut r);
+        match check_c13_program(&p) { Ok(true) => { compared += 1; }, Ok(false) => {}, Err(m) => {
+          println!("WITNESS {{\"property\":\"C13\",\"program\":{:?},\"what\":{:?},\"cases_tried\":{}}}", serde_json::to_string(&prog_to_value(&p)).unwrap(), m, n);
+          return 1; } }
       } else if prop == "C13" {
         let na = 1 + r.below(4);
         let mut pool: Vec<KeyCode> = mods.to_vec();
@@ -120,9 +230,26 @@ pub fn explore(prop: &str, secs: f64, seed: u64) -> i32 {
       }
     }
   }
-  println!("NO-WITNESS cases_tried={}", n);
+  println!("NO-WITNESS cases_tried={} programs_compared={}", n, compared);
   0
 }
+
+// a program as JSON (for the witness file) and back
+fn mods_to_value(ms: &Vec<PMod>) -> serde_json::Value { serde_json::Value::Array(ms.iter().map(|m| match m { PMod::Alias(a) => serde_json::json!({"alias": a}), PMod::Key(k) => serde_json::json!({"key": format!("{:?}", k)}) }).collect()) }
+fn prog_to_value(p: &Vec<PItem>) -> serde_json::Value { serde_json::Value::Array(p.iter().map(|it| match it {
+  PItem::AliasDef { name, keys } => serde_json::json!({"kind": "alias", "name": name, "keys": keys.iter().map(|k| format!("{:?}", k)).collect::<Vec<_>>()}),
+  PItem::Single { mods, key, to_mods, to_key, disabled } => serde_json::json!({"kind": "single", "mods": mods_to_value(mods), "key": format!("{:?}", key), "to_mods": mods_to_value(to_mods), "to_key": format!("{:?}", to_key), "disabled": disabled}),
+  PItem::Row { mods, row, to_mods, letters, disabled } => serde_json::json!({"kind": "row", "mods": mods_to_value(mods), "row": row, "to_mods": mods_to_value(to_mods), "letters": letters, "disabled": disabled}),
+  PItem::RepeatOnly { mods, key, disabled } => serde_json::json!({"kind": "repeat_only", "mods": mods_to_value(mods), "key": format!("{:?}", key), "disabled": disabled}),
+}).collect()) }
+fn kc(v: &serde_json::Value) -> KeyCode { use std::str::FromStr; KeyCode::from_str(v.as_str().unwrap()).unwrap() }
+fn value_to_mods(v: &serde_json::Value) -> Vec<PMod> { v.as_array().unwrap().iter().map(|m| if let Some(a) = m.get("alias") { PMod::Alias(a.as_u64().unwrap() as usize) } else { PMod::Key(kc(&m["key"])) }).collect() }
+fn value_to_prog(v: &serde_json::Value) -> Vec<PItem> { v.as_array().unwrap().iter().map(|it| match it["kind"].as_str().unwrap() {
+  "alias" => PItem::AliasDef { name: it["name"].as_u64().unwrap() as usize, keys: it["keys"].as_array().unwrap().iter().map(kc).collect() },
+  "single" => PItem::Single { mods: value_to_mods(&it["mods"]), key: kc(&it["key"]), to_mods: value_to_mods(&it["to_mods"]), to_key: kc(&it["to_key"]), disabled: it["disabled"].as_bool().unwrap() },
+  "row" => PItem::Row { mods: value_to_mods(&it["mods"]), row: it["row"].as_u64().unwrap() as usize, to_mods: value_to_mods(&it["to_mods"]), letters: it["letters"].as_str().unwrap().to_string(), disabled: it["disabled"].as_bool().unwrap() },
+  _ => PItem::RepeatOnly { mods: value_to_mods(&it["mods"]), key: kc(&it["key"]), disabled: it["disabled"].as_bool().unwrap() },
+}).collect() }
 
 pub fn replay(prop: &str, text: &str) -> i32 {
   let v: serde_json::Value = serde_json::from_str(text).expect("json");
@@ -131,6 +258,12 @@ pub fn replay(prop: &str, text: &str) -> i32 {
     let j = c["json"].as_str().unwrap();
     println!("layout file: {}", j);
     match check_c14(j, c["event_seed"].as_u64().unwrap_or(1)) { Ok(()) => { println!("NOT-REPRODUCED: loading rejects the file or the accepted layout runs without panicking"); 0 }, Err(m) => { println!("REPRODUCED: {}", m); 1 } }
+  } else if c.get("program").is_some() {
+    let p = value_to_prog(&serde_json::from_str(c["program"].as_str().unwrap()).unwrap());
+    println!("layout program: {}", program_json(&p));
+    match expand_by_hand(&p) { Some(w) => { println!("written out by hand:"); for m in &w { println!("  {:?} -> {:?} ({:?})", m.from, m.to, m.repeat); } }, None => println!("written out by hand: (the program has no meaning)") }
+    match load(&program_json(&p)) { Ok(l) => { println!("converted by the real loader:"); for m in &l.mappings { println!("  {:?} -> {:?} ({:?})", m.from, m.to, m.repeat); } }, Err(e) => println!("the real loader rejects it: {}", e) }
+    match check_c13_program(&p) { Ok(_) => { println!("NOT-REPRODUCED: the conversion equals the hand-written expansion (or the program is rejected)"); 0 }, Err(m) => { println!("REPRODUCED: {}", m); 1 } }
   } else {
     // defs printed with {:?}: [[LEFTSHIFT, RIGHTSHIFT], [LEFTCTRL]]
     let s = c["defs"].as_str().unwrap();
